@@ -23,7 +23,7 @@ EXPLANATION = (
     "tables; R11d every consumer of the sign-encoded pragma_lines keys decodes the sign before using a key as a "
     "line number; R11e the tables are emptied when a new file starts; R11f the recogniser runs only under the "
     "pragma extension's flag; R11g every path through the compiler of one pragma either records a suppression or "
-    "reports the malformed pragma. Not decided: the character-level parsing of the pragma text, alias resolution "
+    "reports the malformed pragma; R11i the suppression tables are written only by the per-file reset and the pragma compiler (never while reporting). Not decided: the character-level parsing of the pragma text, alias resolution "
     "values, and that positions after a pragma line are shifted by exactly one (runtime arithmetic)."
 )
 ASSUMPTIONS = ["the plugin id table (all_ids) maps every id and alias to its plugin (built in PluginManager registration, C17)"]
@@ -251,8 +251,8 @@ def r11d(ctx: Context) -> None:
     token_cls = prog.cls(PRAGMA_TOKEN)
     consumers: List[Tuple[FuncInfo, str, ast.AST]] = []
     for func in prog.iter_functions():
-        if func.cls is not None and func.cls == token_cls:
-            continue  # the token's own bookkeeping moves keys verbatim
+        if func.cls is not None and func.cls == token_cls and "compose" in func.name:
+            continue  # serialisation writes the keys verbatim
         for node in walk_local(func.node):
             iter_expr = None
             target = None
@@ -274,9 +274,24 @@ def r11d(ctx: Context) -> None:
         raise AnalysisError(f"only {len(consumers)} loops over pragma_lines found (>= 3 confirmed)")
     seeds = [(func, var) for func, var, _ in consumers]
     tainted = _key_taint(prog, seeds)
+    # R11h part: a table is never re-keyed entry by entry while a loop walks its keys (entries collide)
+    mutating_methods = set()
+    for method in token_cls.methods.values():
+        for node in walk_local(method.node):
+            if isinstance(node, ast.Delete) and any("pragma_lines" in norm(t) for t in node.targets):
+                mutating_methods.add(method.name)
+    for func, var, loop in consumers:
+        body = loop.body if isinstance(loop, ast.For) else []
+        for stmt in body:
+            for node in ast.walk(stmt):
+                rekeys = isinstance(node, ast.Delete) and any("pragma_lines" in norm(t) for t in node.targets)
+                if isinstance(node, ast.Call) and isinstance(node.func, ast.Attribute) and node.func.attr in mutating_methods:
+                    rekeys = True
+                if rekeys:
+                    rule.fail(f"{func.short}: re-keys pragma_lines inside a loop over it", where(func, node), "pragma entries are moved one at a time while the loop walks the same table: when two pragmas are exactly the shift apart one overwrites the other and a pragma line is lost from the fixed file")
     for qual, names in sorted(tainted.items()):
         func = prog.functions[qual]
-        if func.cls is not None and func.cls == token_cls:
+        if func.cls is not None and func.cls == token_cls and "compose" in func.name:
             continue
         for var in sorted(names):
             uses_as_number = []
@@ -386,6 +401,39 @@ def r11e(ctx: Context) -> None:
         rule.fail(key, where(block_pass), "the parser does not start each document with an empty pragma_lines table")
 
 
+def r11_table_writers(ctx: Context, rule_id: str = "R11i") -> None:
+    """The suppression tables are written only by the per-file reset and by the pragma compiler."""
+    prog = ctx.prog
+    rule = ctx.rule(rule_id, "the pragma tables are written only at file start and by the pragma compiler", 3)
+    manager = prog.cls(PM)
+    fields = ("__document_pragmas", "__document_pragma_ranges")
+    from sa.state import self_effects
+
+    allowed = {"__init__", "starting_new_file"}
+    for method in manager.methods.values():
+        eff = self_effects(method)
+        for name in fields:
+            for node in eff.writes.get(name, []):
+                key = f"{method.short}: writes {name}"
+                if method.name in allowed:
+                    rule.ok(key, "per-file reset")
+                else:
+                    rule.fail(key, where(method, node), f"{method.short} modifies the suppression table '{name}' ('{norm(node)[:70]}'): the table is shared by all rules, so what one rule's failure does to it changes which failures of other rules are reported")
+    # the compiler receives the tables as arguments from compile_pragmas only
+    for func in prog.iter_functions():
+        if func.cls is not None and func.cls == manager:
+            continue
+        for node in walk_local(func.node):
+            if isinstance(node, ast.Attribute) and node.attr.lstrip("_").startswith(("PluginManager__document_pragma", "document_pragma")) and "PluginManager" in node.attr:
+                rule.fail(func_key(func, node), where(func, node), "the pragma tables are reached from outside the plugin manager")
+    compiler = prog.method(PM, "compile_pragmas")
+    passes = [n for n in walk_local(compiler.node) if isinstance(n, ast.Call) and any("document_pragma" in norm(a) for a in n.args)]
+    if len(passes) == 1:
+        rule.ok(func_key(compiler), "tables handed to compile_single_pragma only")
+    else:
+        rule.fail(func_key(compiler), where(compiler), f"the tables are handed out {len(passes)} times in compile_pragmas")
+
+
 def r11f(ctx: Context) -> None:
     prog = ctx.prog
     rule = ctx.rule("R11f", "the recogniser runs only when the pragma extension is enabled", 1)
@@ -471,3 +519,4 @@ def run(ctx: Context) -> None:
     r11e(ctx)
     r11f(ctx)
     r11g(ctx)
+    r11_table_writers(ctx, "R11i")
